@@ -866,10 +866,10 @@ int main(int argc, char** argv) {
         case 0: case 12: { std::vector<Ops<C_Polyhedron> > v = poly_ops<C_Polyhedron>(); run_chain(h, r, n, v[r.below((unsigned)v.size())]); break; }
         case 1: case 13: { std::vector<Ops<NNC_Polyhedron> > v = poly_ops<NNC_Polyhedron>(); run_chain(h, r, n, v[r.below((unsigned)v.size())]); break; }
         case 2: case 14: { std::vector<Ops<BQ> > v = shape_ops<BQ, Checked_Number<mpq_class, WRD_Extended_Number_Policy> >(r, true); add_bds_h79(v); run_chain(h, r, n, v[r.below((unsigned)v.size())]); break; }
-        case 3: case 15: { std::vector<Ops<OQ> > v = shape_ops<OQ, Checked_Number<mpq_class, WRD_Extended_Number_Policy> >(r, false); run_chain(h, r, n, v[r.below((unsigned)v.size())]); break; }
+        case 3: case 15: { if (n == 3 && !r.chance(1, 4)) n = 2; std::vector<Ops<OQ> > v = shape_ops<OQ, Checked_Number<mpq_class, WRD_Extended_Number_Policy> >(r, false); run_chain(h, r, n, v[r.below((unsigned)v.size())]); break; }
         case 4: { std::vector<Ops<XQ> > v = box_ops(r); run_chain(h, r, n, v[r.below((unsigned)v.size())]); break; }
         case 5: { std::vector<Ops<BD> > v = shape_ops<BD, Checked_Number<double, WRD_Extended_Number_Policy> >(r, true); add_bds_h79(v); run_chain(h, r, n, v[r.below((unsigned)v.size())]); break; }
-        case 6: { std::vector<Ops<OD> > v = shape_ops<OD, Checked_Number<double, WRD_Extended_Number_Policy> >(r, false); run_chain(h, r, n, v[r.below((unsigned)v.size())]); break; }
+        case 6: { if (n == 3 && !r.chance(1, 4)) n = 2; std::vector<Ops<OD> > v = shape_ops<OD, Checked_Number<double, WRD_Extended_Number_Policy> >(r, false); run_chain(h, r, n, v[r.below((unsigned)v.size())]); break; }
         case 7: { for (int k = 0; k < 6; ++k) { if (r.chance(1, 2)) cert_lines<C_Polyhedron>(h * 10 + k, r, n); else cert_lines<NNC_Polyhedron>(h * 10 + k, r, n); } grid_cert_lines(h, r, n); break; }
         case 8: run_powerset_chain<C_Polyhedron>(h, r, std::min<dimension_type>(n, 2)); break;
         case 9: run_powerset_chain<NNC_Polyhedron>(h, r, std::min<dimension_type>(n, 2)); break;
